@@ -425,7 +425,7 @@ static void c12_compare(char *pat, char *line, int shown_limit)
 		char *pats[1] = {pat};
 		struct rset *rs = rset_make(1, pats, icase ? RE_ICASE : 0);
 		struct rstr *rt = rstr_make(pat, icase ? RE_ICASE : 0);
-		for (flg = 0; flg < 8; flg += 2) {
+		for (flg = 0; flg < 16; flg += 2) {
 			int g1[6], g2[6], r1, r2, i, diff = 0;
 			for (i = 0; i < 6; i++)
 				g1[i] = g2[i] = -1;
